@@ -111,6 +111,17 @@ fn router_advertisement(c: &mut C, dst: IpAddr, dst_mac: [u8; 6]) -> Vec<u8> {
         p[2] = 0x0d;
         p[3] = 0xb8;
         p[5] = 1 + k as u8 + c.tape.draw(2) as u8;
+        // a router may advertise nonsense: multicast, unspecified, loopback or link-local "prefixes"
+        match c.tape.draw(12) {
+            8 => p = [0xff, 0x02, 0, 0, 0, 0, 0, 0, 0, 0, 0, 0, 0, 0, 0, 0],
+            9 => p = [0; 16],
+            10 => p = [0xfe, 0x80, 0, 0, 0, 0, 0, 0, 0, 0, 0, 0, 0, 0, 0, 0],
+            11 => {
+                p = [0; 16];
+                p[15] = 1;
+            }
+            _ => {}
+        }
         body.extend_from_slice(&p);
     }
     body.extend_from_slice(&[1, 1]);
